@@ -4,6 +4,8 @@ import (
 	"bytes"
 	"errors"
 	"fmt"
+	"runtime/debug"
+	"sync"
 
 	"github.com/syndtr/goleveldb/leveldb"
 	"github.com/syndtr/goleveldb/leveldb/comparer"
@@ -73,6 +75,7 @@ type Env struct {
 
 	snaps    []*snapH
 	iters    []*iterH
+	pinMu    sync.Mutex
 	pinned   []*leveldb.VerifVersion
 	tcache   map[int64]*tableSummary
 	opIdx    int
@@ -135,6 +138,9 @@ func (e *Env) rng(s, l *int) (*util.Range, []byte, []byte) {
 // Open opens the DB.
 func (e *Env) Open() error {
 	leveldb.VerifSetVersionObserver(func(p *leveldb.VerifVersion) bool {
+		// called from whichever goroutine installs the version
+		e.pinMu.Lock()
+		defer e.pinMu.Unlock()
 		e.versions++
 		if e.C.Tree {
 			e.pinned = append(e.pinned, p)
@@ -209,10 +215,9 @@ func (e *Env) Close() error {
 		e.Tr, e.TrM = nil, nil
 		e.St.TrDiscards++
 	}
-	for _, p := range e.pinned {
+	for _, p := range e.takePinned() {
 		p.Release()
 	}
-	e.pinned = nil
 	leveldb.VerifSetVersionObserver(nil)
 	if err != nil {
 		return e.fail("Close failed: %v", err)
@@ -226,10 +231,9 @@ func (e *Env) Abort() {
 		h.it.Release()
 	}
 	e.iters = nil
-	for _, p := range e.pinned {
+	for _, p := range e.takePinned() {
 		p.Release()
 	}
-	e.pinned = nil
 	if e.DB != nil {
 		e.DB.Close()
 		e.DB = nil
@@ -237,11 +241,23 @@ func (e *Env) Abort() {
 	leveldb.VerifSetVersionObserver(nil)
 }
 
+func (e *Env) takePinned() []*leveldb.VerifVersion {
+	e.pinMu.Lock()
+	defer e.pinMu.Unlock()
+	r := e.pinned
+	e.pinned = nil
+	return r
+}
+
+func (e *Env) nVersions() int {
+	e.pinMu.Lock()
+	defer e.pinMu.Unlock()
+	return e.versions
+}
+
 func (e *Env) drainPinned() error {
 	var first error
-	for len(e.pinned) > 0 {
-		p := e.pinned[0]
-		e.pinned = e.pinned[1:]
+	for _, p := range e.takePinned() {
 		if e.C.Tree && first == nil {
 			if err := e.checkVersion(p); err != nil {
 				first = err
@@ -801,7 +817,7 @@ func (e *Env) newIter(op *Op) (*iterH, error) {
 		m = e.M.Clone()
 	}
 	h := &iterH{it: it, cur: model.NewCursor(m.Sorted(e.Cmp.Compare, a, b), e.Cmp.Compare), opsAtOpen: e.opIdx,
-		removedAt: e.removalsNow(), versAtOpen: e.versions}
+		removedAt: e.removalsNow(), versAtOpen: e.nVersions()}
 	e.iters = append(e.iters, h)
 	e.St.Iters++
 	if e.compacted() && e.St.MemComp > 0 {
@@ -932,7 +948,7 @@ func (e *Env) finishIter(h *iterH) error {
 	if n := e.removalsNow() - h.removedAt; n > 0 {
 		e.St.IterPinnedRemovals += n
 	}
-	if d := e.versions - h.versAtOpen; d > e.St.MaxVersionsBehindIter {
+	if d := e.nVersions() - h.versAtOpen; d > e.St.MaxVersionsBehindIter {
 		e.St.MaxVersionsBehindIter = d
 	}
 	if h.comp {
@@ -988,8 +1004,14 @@ func (e *Env) Finish() error {
 func Run(c *Case) (st *Stats, err error) {
 	e := NewEnv(c)
 	defer func() {
+		if x := recover(); x != nil {
+			err = e.fail("panic in the calling goroutine: %v\n%s", x, debug.Stack())
+		}
 		if err != nil {
-			e.Abort()
+			func() {
+				defer func() { recover() }()
+				e.Abort()
+			}()
 		}
 		st = &e.St
 	}()
